@@ -232,11 +232,12 @@ pub trait QueryBuilder:
 
         self.prepare_update_condition(&update.from, &update.r#where, sql);
 
+        // RETURNING precedes ORDER BY / LIMIT (SQLite's `update-stmt-limited`)
+        self.prepare_returning(&update.returning, sql);
+
         self.prepare_update_order_by(update, sql);
 
         self.prepare_update_limit(update, sql);
-
-        self.prepare_returning(&update.returning, sql);
     }
 
     fn prepare_update_join(&self, _: &[TableRef], _: &ConditionHolder, _: &mut dyn SqlWriter) {
@@ -319,11 +320,12 @@ pub trait QueryBuilder:
 
         self.prepare_condition(&delete.r#where, "WHERE", sql);
 
+        // RETURNING precedes ORDER BY / LIMIT (SQLite's `delete-stmt-limited`)
+        self.prepare_returning(&delete.returning, sql);
+
         self.prepare_delete_order_by(delete, sql);
 
         self.prepare_delete_limit(delete, sql);
-
-        self.prepare_returning(&delete.returning, sql);
     }
 
     /// Translate ORDER BY expression in [`DeleteStatement`].
